@@ -463,4 +463,18 @@ example : C10.parsesTo
 example : (nvVal {} (.arr [.flt "1.5".toUTF8.toList, .obj [([107], .flt "1e+06".toUTF8.toList), ([122], .flt "-0".toUTF8.toList)]])).render =
     "[F(312e35),{K(6b)F(316536),K(7a)I(0)}]" := by decide +kernel
 
+/-- the int64 extremes: every int64 is in the class; 9223372036854775807 and -9223372036854775808 come back as
+`json.Number` with the same digits (known finding C03sen-int19 on the positive side), -9223372036854775807 and
+9223372036854775799 as int64 -/
+example : C10.parsesTo
+    (senWrite {} { tab := true } (.arr [.int 9223372036854775807, .int (-9223372036854775808), .int (-9223372036854775807), .int 9223372036854775799]))
+    (nvVal {} (.arr [.int 9223372036854775807, .int (-9223372036854775808), .int (-9223372036854775807), .int 9223372036854775799])) := by
+  apply C10_layout_partial {} _ _ (Or.inl ⟨_, rfl⟩)
+  simp only [admVal, admElems]
+  decide
+
+example : (nvVal {} (.arr [.int 9223372036854775807, .int (-9223372036854775808), .int (-9223372036854775807), .int 9223372036854775799])).render =
+    "[B(39323233333732303336383534373735383037),B(2d39323233333732303336383534373735383038),I(-9223372036854775807),I(9223372036854775799)]" := by
+  decide +kernel
+
 end OjgVerif.Sen
